@@ -131,6 +131,20 @@ fn hostile_view(what: String, seen: &[u8], cfg: Option<u16>, tcp: bool) -> ReqVi
             limit = Some(udp_limit(opt.map(|r| r.class), cfg));
         }
     }
+    // A datagram that cannot be walked to its end may still carry an OPT
+    // record in front of the damage: the server's lazy reader finds it (it
+    // skips over records frame by frame exactly like the walker does) and the
+    // client did advertise a size in it. Honouring that size is what the
+    // statement allows ("the client's advertised EDNS size"), so the limit is
+    // taken from an OPT the walk reached before it failed (the earlier rule
+    // "not walkable => 512" demanded more than the property in that corner;
+    // corrected by the integrator while triaging the libFuzzer findings of
+    // the thorough tier, none of which turned out to be this corner).
+    if let (false, Some(w), false) = (clean, &w, tcp) {
+        if let Some(opt) = w.records.iter().find(|r| r.section == 3 && r.rtype == oracle::OPT) {
+            limit = Some(udp_limit(Some(opt.class), cfg));
+        }
+    }
     ReqView { what, id, question, has_opt, limit, no_edns_hint: cfg.map(|c| c as usize), tcp }
 }
 
